@@ -12,7 +12,8 @@ CLAIMED = {
     text=("Lean theorems for ALL strings: invalid_import_path (function translated from the Python source on every run) "
           "accepts exactly the canonical relative paths; accepted names equal their posixpath.normpath and stay strictly "
           "inside any normalised absolute root. Tie: translated function is the theorem's subject; hand model proved "
-          "equivalent; exhaustive differential run of real code vs model vs property-text oracle."),
+          "equivalent; exhaustive differential run of real code vs model vs property-text oracle; plus every mutating FS call of real "
+          "multi-daemon histories observed by an audit hook: strictly inside a node root, roots/markers never removed, sentinel outside untouched."),
     note=NOTE_COMMON + " OS symlink resolution is outside the string theorems.",
     technique="Lean 4 proof over translated source function + exhaustive model/implementation correspondence",
     ref="§5 C06"),
@@ -78,6 +79,43 @@ CLAIMED = {
     note=NOTE_COMMON + " Help text as specification; file-level filters (acq, list, targets, age) computed by the harness from the documentation.",
     technique="Lean 4 proof (loop = prefix specification, idempotence) + differential correspondence on the real CLI",
     ref="§5 C18"),
+ "C05": dict(
+    text=("Lean theorems over the World/daemon model: PROGRESS (a wanted suspect copy gets a verdict; a released copy is deleted unless the "
+          "deletion-safety count holds it back; a request that is not blocked is cancelled terminally or dispatched; a dispatched, honestly "
+          "transferred request completes) and CLASSIFICATION (if no first-level step of an update pass changes index or storage, every "
+          "pending item of that host is blocked for one of the documented reasons or handed to the transport). PARTIAL: the bound on the "
+          "number of iterations is measured by the tie (rounds-to-fixed-point histogram), not proved (rule cascades). Tie: random two-host "
+          "histories on the real daemons followed by fault-free rounds to a fixed point; residue classified by an oracle written from "
+          "the property's list. Known finding F16 (shadowed duplicate request)."),
+    note=NOTE_COMMON + " Daemon objects are re-created every pass (a restarted daemon); HSM groups and multi-node transport groups are not in these histories.",
+    technique="Lean 4 proof (progress + fixed-point classification) + convergence runs of the real daemons with residue oracle",
+    ref="§5 C05"),
+ "C07": dict(
+    text=("Lean theorems: every first-level step an update pass creates (iterateOps) acts on a node that is local, active and carries its "
+          "marker; a step changes storage only on the node it acts on; rows of other nodes change only by has:=M (source suspect) or "
+          "wants:=N (autoclean), never created/removed. Tie: two real daemons on one index with activation flips, host reassignment, "
+          "marker changes; every tree and copy-row change attributed to the acting host; queued tasks vs iterateOps."),
+    note=NOTE_COMMON + " A task already queued when an operator deactivates its node still runs (effects attributed to the state read at dispatch).",
+    technique="Lean 4 proof (dispatch targets + frame conditions) + attributed multi-daemon histories",
+    ref="§5 C07"),
+ "C08": dict(
+    text=("Lean theorems: unique (file,node), unique ids preserved by every step; index/storage agreement (healthy untracked copy => bytes "
+          "with the registered length) preserved over every history with tracked damage (faults/overrides add, a completed check clears, an "
+          "unverified transfer from a tainted source taints); removed-by-daemon => gone; completed => copy recorded in the destination "
+          "group; rows never removed. Tie: the same real multi-daemon histories with the invariants evaluated on the real index and trees "
+          "after every step."),
+    note=NOTE_COMMON + " Uniqueness/enum legality rest on the SQL engine and EnumField; timestamps checked only by the tie.",
+    technique="Lean 4 proof (inductive invariant with tracked-damage set) + invariant evaluation on real histories",
+    ref="§5 C08"),
+ "C09": dict(
+    text=("Lean theorems: every prefix of the primitive effects of a pull keeps the crash invariant (wanted healthy copies have bytes; "
+          "completed requests have a destination copy), the index part is all-or-nothing around the transaction; every prefix of a delete "
+          "of an unwanted copy keeps it and the retry completes; check/import write one row without touching storage. Tie: the real tasks "
+          "killed (fork + _exit) before EVERY primitive (non-SELECT statement, mutating FS call, tool start), invariant checked on the "
+          "real state, daemon restarted to a fixed point and compared with an uninterrupted run. Known finding F17b (rules not replayed)."),
+    note=NOTE_COMMON + " Crash = process death; power loss / fsync / SQLite journal durability outside.",
+    technique="Lean 4 proof over effect prefixes + exhaustive crash-point injection on the real tasks",
+    ref="§5 C09"),
  "C10": dict(
     text=("Lean theorems over an abstract Task/Worker model for every fault plan (DB error in the body or in any subset of clean-ups): "
           "every pending clean-up starts exactly once, task_done exactly once, no global abort, requeue iff requested, worker exits to be "
